@@ -27,175 +27,174 @@ def _resolve_alias(m, e: ast.AST, depth: int = 0) -> ast.AST:
     return e
 
 
+def _line_of(m, name: str) -> int:
+    st = m.assigns.get(name)
+    return st[-1].lineno if st else 1
+
+
+def check_operator_element(r, rid: str, where: str, op, ident_alphabet: str, loc: str) -> None:
+    """One operator / quantifier token of a grammar (an element of the abstract model, sa.grammar.G)."""
+    tok = getattr(op, "match", None)
+    if op.kind == "Literal" and getattr(op, "implicit", False):
+        if set(tok) <= set(ident_alphabet):
+            r.violation(rid, where, f"operator {tok!r} given as bare string",
+                        f"pyparsing turns the bare string {tok!r} into Literal, which matches a *prefix*: an identifier that begins with "
+                        f"{tok!r} (e.g. '{tok}epad') is split into operator + rest instead of being read as a whole word", loc)
+        else:
+            r.ok(rid, where, f"operator {tok!r} is not made of identifier characters", loc)
+    elif op.kind in ("Literal", "CaselessLiteral", "Suppress"):
+        r.violation(rid, where, f"operator {tok!r} as {op.kind}", f"{op.kind} matches a prefix of longer identifiers (no word boundary)", loc)
+    elif op.kind == "CaselessKeyword":
+        r.violation(rid, where, f"operator {tok!r} as CaselessKeyword", "Sigma operators are lower-case keywords; a detection named 'AND' or 'Not' would be taken as operator", loc)
+    elif op.kind == "Keyword":
+        if not isinstance(op.ident_chars, str):
+            raise AnalysisError(f"{where}: ident_chars of Keyword({tok!r}) is not a constant")
+        missing = set(ident_alphabet) - set(op.ident_chars)
+        if missing:
+            r.violation(rid, where, f"Keyword({tok!r}) word boundary",
+                        f"identifier characters {sorted(missing)} do not count as word characters for this keyword: "
+                        f"a name such as '{tok}{sorted(missing)[0]}x' is split into operator + rest", loc)
+        else:
+            r.ok(rid, where, f"Keyword({tok!r}) with word characters ⊇ identifier alphabet", loc)
+    else:
+        raise AnalysisError(f"{where}: operator element {op!r} not recognised")
+
+
 def grammar_operator_check(ctx, rid: str, m, scope_node: ast.AST, ident_alphabet: str, where: str, local_assigns=None) -> int:
-    """Check the operator table of the infix_notation call(s) below scope_node.  Returns #levels."""
-    r, prog = ctx.r, ctx.prog
+    """Check the operator table of the infix_notation call(s) built by the statements of scope_node (a function): the body
+    is interpreted over the abstract pyparsing model (sa.grammar) and every infix element it builds is examined."""
+    from ..grammar import G, interpret_statements
+    r = ctx.r
+    body = scope_node.body if isinstance(scope_node, ast.FunctionDef) else [scope_node]
+    env, skipped = interpret_statements(ctx.prog, m, [st for st in body if not isinstance(st, ast.Return)], extra={"self": None, "cls": None})
+    infix = []
+    seen: set[int] = set()
+    for v in list(env.values()):
+        if isinstance(v, G):
+            for g in v.walk():
+                if g.kind == "infix" and id(g) not in seen:
+                    seen.add(id(g))
+                    infix.append(g)
     n = 0
-
-    def resolve(e: ast.AST) -> ast.AST:
-        if local_assigns is not None:
-            d = 0
-            while isinstance(e, ast.Name) and e.id in local_assigns and d < 5:
-                e = local_assigns[e.id]
-                d += 1
-            return e
-        return _resolve_alias(m, e)
-
-    for c in (x for x in ast.walk(scope_node) if isinstance(x, ast.Call) and call_name(x).split(".")[-1] in ("infix_notation", "infixNotation")):
-        if len(c.args) < 2 or not isinstance(c.args[1], (ast.List, ast.Tuple)):
-            raise AnalysisError(f"{where}: infix_notation operator table is not a literal list")
-        for lvl in c.args[1].elts:
-            if not isinstance(lvl, ast.Tuple) or len(lvl.elts) < 3:
-                raise AnalysisError(f"{where}: operator level is not a literal tuple")
+    for g in infix:
+        for op, arity, assoc, action in g.levels:
             n += 1
-            op = resolve(lvl.elts[0])
-            loc = f"{m.relpath}:{lvl.lineno}"
-            if isinstance(op, ast.Constant) and isinstance(op.value, str):
-                tok = op.value
-                if set(tok) <= set(ident_alphabet):
-                    r.violation(rid, where, f"operator {tok!r} given as bare string",
-                                f"pyparsing turns the bare string {tok!r} into Literal, which matches a *prefix*: an identifier that begins with "
-                                f"{tok!r} (e.g. '{tok}epad') is split into operator + rest instead of being read as a whole word", loc)
-                else:
-                    r.ok(rid, where, f"operator {tok!r} is not made of identifier characters", loc)
-                continue
-            if isinstance(op, ast.Call):
-                kind = call_name(op).split(".")[-1]
-                tok = None
-                try:
-                    tok = const_eval(prog, m, op.args[0]) if op.args else None
-                except ValueError:
-                    pass
-                if kind in ("Literal", "CaselessLiteral", "Suppress"):
-                    r.violation(rid, where, f"operator {tok!r} as {kind}", f"{kind} matches a prefix of longer identifiers (no word boundary)", loc)
-                    continue
-                if kind in ("Keyword", "CaselessKeyword"):
-                    if kind == "CaselessKeyword":
-                        r.violation(rid, where, f"operator {tok!r} as CaselessKeyword", "Sigma operators are lower-case keywords; a detection named 'AND' or 'Not' would be taken as operator", loc)
-                        continue
-                    ic = None
-                    for kw in op.keywords:
-                        if kw.arg in ("ident_chars", "identChars"):
-                            ic = kw.value
-                    if ic is None and len(op.args) > 1:
-                        ic = op.args[1]
-                    chars = string.ascii_letters + string.digits + "_$"
-                    if ic is not None:
-                        try:
-                            chars = const_eval(prog, m, resolve(ic)) if not isinstance(resolve(ic), ast.Name) else const_eval(prog, m, ic)
-                        except ValueError:
-                            if local_assigns is not None and isinstance(ic, ast.Name) and ic.id in local_assigns:
-                                chars = const_eval(prog, m, local_assigns[ic.id])
-                            else:
-                                raise AnalysisError(f"{where}: ident_chars of Keyword({tok!r}) is not a constant")
-                    missing = set(ident_alphabet) - set(chars)
-                    if missing:
-                        r.violation(rid, where, f"Keyword({tok!r}) word boundary",
-                                    f"identifier characters {sorted(missing)} do not count as word characters for this keyword: "
-                                    f"a name such as '{tok}{sorted(missing)[0]}x' is split into operator + rest", loc)
-                    else:
-                        r.ok(rid, where, f"Keyword({tok!r}) with word characters ⊇ identifier alphabet", loc)
-                    continue
-            raise AnalysisError(f"{where}: operator element {short(op, 60)} not recognised")
+            check_operator_element(r, rid, where, op, ident_alphabet, f"{m.relpath}:{scope_node.lineno}")
+    if not infix and skipped:
+        raise AnalysisError(f"{where}: no infix_notation grammar could be read ({list(skipped.items())[0]})")
     return n
 
 
+def condition_grammar(ctx, m):
+    """The condition grammar of sigma/conditions.py as data: its module-level statements interpreted over the abstract
+    pyparsing model. Cached per run."""
+    if getattr(ctx, "_c02_grammar", None) is None:
+        from ..grammar import interpret_statements
+        env, skipped = interpret_statements(ctx.prog, m, m.tree.body)
+        ctx._c02_grammar = (env, skipped)
+    return ctx._c02_grammar
+
+
+def grammar_alphabets(ctx, m) -> tuple[str, str]:
+    """(identifier alphabet, selector pattern alphabet) — the Word elements reached from the grammar's operand."""
+    from ..grammar import G
+    env, skipped = condition_grammar(ctx, m)
+    cond = env.get("condition")
+    if not isinstance(cond, G) or cond.kind != "infix":
+        raise AnalysisError(f"{MOD}.condition is not an infix_notation(...) grammar ({skipped})")
+    alts = cond.operand.parts if cond.operand.kind in ("MatchFirst", "Or") else [cond.operand]
+    ident = [a for a in alts if a.kind == "Word"]
+    sels = [a for a in alts if a.kind == "And" and a.parts and a.parts[-1].kind == "Word"]
+    if len(ident) != 1 or len(sels) != 1:
+        raise AnalysisError(f"{MOD}: identifier alphabets are not Word(<constant>): operand alternatives {alts!r}")
+    return ident[0].alphabet, sels[0].parts[-1].alphabet
+
+
 def run(ctx) -> None:
+    from ..grammar import G
     r, prog = ctx.r, ctx.prog
     m = prog.module(MOD)
     r.explanation = (
-        "The condition grammar is data: the pyparsing objects in sigma/conditions.py are extracted and evaluated (alphabets, "
-        "keyword word-boundaries, the infix_notation precedence table, operand alternative order, parse_all), the parse actions' "
-        "token arithmetic is matched against the arity constants of the classes they build, the selector resolver is checked for "
+        "The condition grammar is data: the statements of sigma/conditions.py that build the pyparsing objects are interpreted "
+        "over an abstract model of pyparsing (sa.grammar: alphabets, keyword word-boundaries, the infix_notation precedence table, "
+        "operand alternative order, parse actions; nothing is parsed), the parse actions' "
+        "token arithmetic is interpreted against the arity constants of the classes they build, the selector resolver is checked for "
         "regex-safe alphabet, fullmatch, the underscore predicate and the quantifier table, and every call site of the cached "
         "parser copies deeply. Evaluation of parsed trees over truth assignments is not performed.")
-    try:
-        ident_alpha = const_eval(prog, m, _resolve_alias(m, _module_assign(m, "identifier")).args[0])  # type: ignore[attr-defined]
-        pat_alpha = const_eval(prog, m, _resolve_alias(m, _module_assign(m, "identifier_pattern")).args[0])  # type: ignore[attr-defined]
-    except (ValueError, AttributeError, IndexError) as e:
-        raise AnalysisError(f"{MOD}: identifier alphabets are not Word(<constant>): {e}")
+    ident_alpha, pat_alpha = grammar_alphabets(ctx, m)
+    env, _skipped = condition_grammar(ctx, m)
+    cond = env["condition"]
     r.analysed["C02.identifier_alphabet"] = "".join(sorted(set(ident_alpha)))
     r.analysed["C02.pattern_alphabet"] = "".join(sorted(set(pat_alpha)))
+    cloc = f"{m.relpath}:{_line_of(m, 'condition')}"
+    alts = cond.operand.parts if cond.operand.kind in ("MatchFirst", "Or") else [cond.operand]
+    sel = next(a for a in alts if a.kind == "And")
+    ident = next(a for a in alts if a.kind == "Word")
 
     # ---- R1
     r.rule("C02.R1", "every operator/quantifier token of the condition grammar is a case-sensitive Keyword whose word characters include the whole identifier alphabet")
-    cond_expr = _module_assign(m, "condition")
-    n = grammar_operator_check(ctx, "C02.R1", m, cond_expr, ident_alpha, MOD + ".condition")
-    q = _module_assign(m, "quantifier")
-    sel = _module_assign(m, "selector")
-    for e, nm in ((q, "quantifier"), (sel, "selector")):
-        for c in (x for x in ast.walk(e) if isinstance(x, (ast.Call, ast.Constant))):
-            loc = f"{m.relpath}:{e.lineno}"
-            if isinstance(c, ast.Call) and call_name(c).split(".")[-1] in ("Keyword",):
-                r.ok("C02.R1", f"{MOD}.{nm}", unparse(c), loc)
-            elif isinstance(c, ast.Call) and call_name(c).split(".")[-1] in ("Literal", "CaselessKeyword", "CaselessLiteral", "oneOf", "one_of"):
-                r.violation("C02.R1", f"{MOD}.{nm}", unparse(c), "quantifier/'of' token is not a case-sensitive Keyword", loc)
-            elif isinstance(c, ast.Constant) and isinstance(c.value, str) and not isinstance(prog.parent(c), ast.Call):
-                r.violation("C02.R1", f"{MOD}.{nm}", repr(c.value), "bare string in the selector grammar becomes a prefix-matching Literal", loc)
+    for op, arity, assoc, action in cond.levels:
+        check_operator_element(r, "C02.R1", MOD + ".condition", op, ident_alpha, cloc)
+    sloc = f"{m.relpath}:{_line_of(m, 'selector')}"
+    for part in sel.parts[:-1]:
+        for tokel in (part.parts if part.kind in ("MatchFirst", "Or") else [part]):
+            nm = "quantifier" if part.kind in ("MatchFirst", "Or") else "selector"
+            if tokel.kind == "Keyword":
+                r.ok("C02.R1", f"{MOD}.{nm}", repr(tokel), sloc)
+            elif tokel.kind == "Literal" and getattr(tokel, "implicit", False):
+                r.violation("C02.R1", f"{MOD}.{nm}", repr(tokel.match), "bare string in the selector grammar becomes a prefix-matching Literal", sloc)
+            elif tokel.kind in ("Literal", "CaselessKeyword", "CaselessLiteral"):
+                r.violation("C02.R1", f"{MOD}.{nm}", repr(tokel), "quantifier/'of' token is not a case-sensitive Keyword", sloc)
+            else:
+                raise AnalysisError(f"{MOD}.selector: element {tokel!r} not recognised")
     r.floor("C02.R1", 7)
 
     # ---- R2 precedence table
     r.rule("C02.R2", "infix_notation levels are (not, unary, RIGHT, ConditionNOT), (and, binary, LEFT, ConditionAND), (or, binary, LEFT, ConditionOR) in this order; operand tries selector before identifier; the parse site uses parse_all=True")
-    call = next((x for x in ast.walk(cond_expr) if isinstance(x, ast.Call) and call_name(x).split(".")[-1] == "infix_notation"), None)
-    if call is None:
-        raise AnalysisError(f"{MOD}.condition is not an infix_notation(...) expression")
     want = [("not", 1, "RIGHT", "ConditionNOT"), ("and", 2, "LEFT", "ConditionAND"), ("or", 2, "LEFT", "ConditionOR")]
     got = []
-    for lvl in call.args[1].elts:  # type: ignore[attr-defined]
-        op = _resolve_alias(m, lvl.elts[0])
-        tok = op.value if isinstance(op, ast.Constant) else (const_eval(prog, m, op.args[0]) if isinstance(op, ast.Call) and op.args else None)
-        arity = const_eval(prog, m, lvl.elts[1])
-        assoc = unparse(lvl.elts[2]).split(".")[-1]
-        action = unparse(lvl.elts[3]).split(".")[0] if len(lvl.elts) > 3 else None
-        actm = unparse(lvl.elts[3]).split(".")[-1] if len(lvl.elts) > 3 else None
-        got.append((tok, arity, assoc, action))
-        if actm != "from_parsed":
-            r.violation("C02.R2", MOD + ".condition", unparse(lvl), "parse action is not <class>.from_parsed", f"{m.relpath}:{lvl.lineno}")
-    loc = f"{m.relpath}:{call.lineno}"
+    for op, arity, assoc, action in cond.levels:
+        act = str(action) if action is not None else None
+        got.append((getattr(op, "match", None), arity, assoc, act.split(".")[0] if act else None))
+        if act is None or act.split(".")[-1] != "from_parsed":
+            r.violation("C02.R2", MOD + ".condition", f"level {getattr(op, 'match', None)!r}: action {act}", "parse action is not <class>.from_parsed", cloc)
     if got == want:
-        r.ok("C02.R2", MOD + ".condition", f"levels {got}", loc)
+        r.ok("C02.R2", MOD + ".condition", f"levels {got}", cloc)
     else:
         for i, (g, w) in enumerate(zip(got + [None] * 3, want)):
             if g != w:
-                r.violation("C02.R2", MOD + ".condition", f"level {i + 1}: {g}", f"expected {w}: NOT binds tighter than AND, AND tighter than OR, binary operators associate left", loc)
+                r.violation("C02.R2", MOD + ".condition", f"level {i + 1}: {g}", f"expected {w}: NOT binds tighter than AND, AND tighter than OR, binary operators associate left", cloc)
         if len(got) != 3:
-            r.violation("C02.R2", MOD + ".condition", f"{len(got)} levels", "exactly three precedence levels expected", loc)
-    operand = _resolve_alias(m, call.args[0])
-    if isinstance(operand, ast.BinOp) and isinstance(operand.op, (ast.BitOr, ast.BitXor)):
-        l, rr = unparse(operand.left), unparse(operand.right)
-        if isinstance(operand.op, ast.BitOr) and (l, rr) == ("selector", "identifier"):
-            r.ok("C02.R2", MOD + ".operand", "selector | identifier (selector tried first)", f"{m.relpath}:{operand.lineno}")
-        else:
-            r.violation("C02.R2", MOD + ".operand", unparse(operand),
-                        "the operand alternative must try `selector` before `identifier` (first match wins): with identifier first, '1 of x' is read as the identifier '1'", f"{m.relpath}:{operand.lineno}")
+            r.violation("C02.R2", MOD + ".condition", f"{len(got)} levels", "exactly three precedence levels expected", cloc)
+    oloc = f"{m.relpath}:{_line_of(m, 'operand')}"
+    if cond.operand.kind == "MatchFirst" and len(alts) == 2 and alts[0] is sel and alts[1] is ident:
+        r.ok("C02.R2", MOD + ".operand", "selector | identifier (selector tried first)", oloc)
     else:
-        raise AnalysisError(f"{MOD}.operand shape not recognised: {short(operand, 80)}")
-    sel_e = _resolve_alias(m, sel)
-    if unparse(sel_e).replace(" ", "") == "quantifier+Keyword('of')+identifier_pattern":
-        r.ok("C02.R2", MOD + ".selector", unparse(sel_e), f"{m.relpath}:{sel_e.lineno}")
+        r.violation("C02.R2", MOD + ".operand", f"{cond.operand.kind} of {['selector' if a is sel else 'identifier' if a is ident else repr(a) for a in alts]}",
+                    "the operand alternative must try `selector` before `identifier` (first match wins): with identifier first, '1 of x' is read as the identifier '1'", oloc)
+    shape = [p.kind for p in sel.parts]
+    if shape == ["MatchFirst", "Keyword", "Word"] and sel.parts[1].match == "of":
+        r.ok("C02.R2", MOD + ".selector", "quantifier + Keyword('of') + identifier_pattern", sloc)
     else:
-        raise AnalysisError(f"{MOD}.selector shape not recognised: {short(sel_e, 80)}")
-    qtoks = sorted(const_eval(prog, m, c.args[0]) for c in ast.walk(q) if isinstance(c, ast.Call) and c.args)
+        raise AnalysisError(f"{MOD}.selector shape not recognised: {sel!r}")
+    qtoks = sorted(str(p.match) for p in sel.parts[0].parts)
     if qtoks == ["1", "all", "any"]:
-        r.ok("C02.R2", MOD + ".quantifier", f"quantifiers {qtoks}", f"{m.relpath}:{q.lineno}")
+        r.ok("C02.R2", MOD + ".quantifier", f"quantifiers {qtoks}", sloc)
     else:
-        r.violation("C02.R2", MOD + ".quantifier", str(qtoks), "quantifier set differs from {1, any, all}", f"{m.relpath}:{q.lineno}")
+        r.violation("C02.R2", MOD + ".quantifier", str(qtoks), "quantifier set differs from {1, any, all}", sloc)
     # parse actions attached to the right elements
-    acts = {}
-    for st in m.tree.body:
-        if isinstance(st, ast.Expr) and isinstance(st.value, ast.Call) and call_name(st.value).endswith(".set_parse_action"):
-            acts[call_name(st.value).split(".")[0]] = unparse(st.value.args[0])
-    for el, act in (("identifier", "ConditionIdentifier.from_parsed"), ("selector", "ConditionSelector.from_parsed")):
-        if acts.get(el) == act:
+    for el, g, act in (("identifier", ident, "ConditionIdentifier.from_parsed"), ("selector", sel, "ConditionSelector.from_parsed")):
+        if str(g.action) == act:
             r.ok("C02.R2", f"{MOD}.{el}", f"parse action {act}")
         else:
-            r.violation("C02.R2", f"{MOD}.{el}", f"parse action {acts.get(el)}", f"expected {act}")
+            r.violation("C02.R2", f"{MOD}.{el}", f"parse action {g.action}", f"expected {act}")
     pf = prog.func(MOD + "._parse_condition_string")
     pcs = [c for c in walk_no_nested(pf.node) if isinstance(c, ast.Call) and call_name(c).endswith(("parse_string", "parseString"))]
     if len(pcs) != 1:
         raise AnalysisError(f"{pf.qual}: expected exactly one parse_string call")
     pa = [kw for kw in pcs[0].keywords if kw.arg in ("parse_all", "parseAll")]
-    if pa and isinstance(pa[0].value, ast.Constant) and pa[0].value.value is True and call_name(pcs[0]).split(".")[0] == "condition":
+    recv = call_name(pcs[0]).split(".")[0]
+    if pa and isinstance(pa[0].value, ast.Constant) and pa[0].value.value is True and env.get(recv) is cond:
         r.ok("C02.R2", pf.qual, unparse(pcs[0]), pf.loc)
     else:
         r.violation("C02.R2", pf.qual, unparse(pcs[0]), "the whole condition string must be consumed (parse_all=True) by the `condition` grammar: trailing garbage would be ignored", pf.loc)
@@ -212,57 +211,45 @@ def r3_parse_actions(ctx, m) -> None:
     r, prog = ctx.r, ctx.prog
     r.rule("C02.R3", "ConditionItem.from_parsed takes the last token for unary and every second token for n-ary levels, builds exactly [cls(args)], and the arity constants of the classes match the grammar element they are attached to")
     fp = prog.func(MOD + ".ConditionItem.from_parsed")
-    canonical = {
-        ("cls.arg_count == 1", "cls.token_list"): "[t[0]]",
-        ("cls.arg_count == 1", "isinstance(t, ParseResults)"): "[t[0][-1]]",
-        ("cls.arg_count > 1", "cls.token_list"): "t[0::2]",
-        ("cls.arg_count > 1", "isinstance(t, ParseResults)"): "t[0][0::2]",
-    }
-    seen = set()
-    for n in walk_no_nested(fp.node):
-        loc = f"{m.relpath}:{getattr(n, 'lineno', fp.node.lineno)}"
-        is_args_store = isinstance(n, ast.Assign) and any(unparse(t) == "args" for t in n.targets)
-        is_args_mut = (isinstance(n, ast.Call) and isinstance(n.func, ast.Attribute) and unparse(n.func.value) == "args"
-                       and n.func.attr in ("append", "extend", "insert", "pop", "remove", "clear", "reverse", "sort")) \
-            or (isinstance(n, ast.AugAssign) and unparse(n.target) == "args") \
-            or (isinstance(n, ast.Subscript) and isinstance(n.ctx, (ast.Store, ast.Del)) and unparse(n.value) == "args")
-        if not (is_args_store or is_args_mut):
+    # the parse action interpreted (sa.tabulate) on token lists of the shapes the grammar produces
+    from ..tabulate import call_method, Raised
+
+    class ParseResults(list):
+        pass
+
+    def mkcls(name, arg_count, token_list):
+        class K:
+            def __init__(self, args):
+                self.args = args
+        K.__name__, K.arg_count, K.token_list = name, arg_count, token_list
+        return K
+
+    KNOT = mkcls("NOT", 1, False)
+    inner_not = KNOT(["x"])
+    cases = [
+        ("unary operator level (not x)", KNOT, ParseResults([ParseResults(["not", "x"])]), ["x"]),
+        ("unary operator level around another NOT (not not x)", KNOT, ParseResults([ParseResults(["not", inner_not])]), [inner_not]),
+        ("identifier token", mkcls("ID", 1, True), ParseResults(["sel"]), ["sel"]),
+        ("n-ary operator level (a and b and c)", mkcls("AND", 2, False), ParseResults([ParseResults(["a", "and", "b", "and", "c"])]), ["a", "b", "c"]),
+        ("n-ary operator level (a or b)", mkcls("OR", 2, False), ParseResults([ParseResults(["a", "or", "b"])]), ["a", "b"]),
+        ("selector tokens (1 of sel*)", mkcls("SEL", 2, True), ParseResults(["1", "of", "sel*"]), ["1", "sel*"]),
+    ]
+    wrong = []
+    for what, K, toks, want in cases:
+        try:
+            got = call_method(prog, MOD + ".ConditionItem", "from_parsed", K, {"ParseResults": ParseResults}, "src", 0, toks)
+        except Raised as ex:
+            wrong.append(f"{what}: raises {ex}")
             continue
-        gs = atomic_guards(guards_at(prog, fp, n))
-        gtrue = {t for t, p in gs if p}
-        if is_args_store:
-            val = unparse(n.value).replace(" ", "")
-            key = None
-            for (g1, g2), expr in canonical.items():
-                if g1 in gtrue and g2 in gtrue:
-                    key = (g1, g2)
-            if key is not None:
-                seen.add(key)
-                if val == canonical[key].replace(" ", ""):
-                    r.ok("C02.R3", fp.qual, f"{' and '.join(key)}: args = {unparse(n.value)}", loc)
-                else:
-                    r.violation("C02.R3", fp.qual, f"{' and '.join(key)}: args = {unparse(n.value)}",
-                                f"expected args = {canonical[key]} (unary operator: last token; n-ary: every second token, skipping the operator tokens)", loc)
-                continue
-            if val in ("list()", "[]") and not (gtrue & {"cls.arg_count == 1", "cls.arg_count > 1"}):
-                r.ok("C02.R3", fp.qual, "fallback args = list() for classes without arguments", loc)
-                continue
-        # any other rewrite of args: must be confined to n-ary classes (flattening AND/OR keeps the function; for NOT it drops a negation)
-        if "cls.arg_count > 1" in gtrue or "cls.arg_count == 2" in gtrue or ("cls.arg_count == 1", False) in gs:
-            r.ok("C02.R3", fp.qual, f"{short(n, 80)} rewrites args for n-ary classes only", loc)
-        else:
-            r.violation("C02.R3", fp.qual, short(n, 120),
-                        "the extracted arguments are rewritten for unary classes too: merging/flattening the argument of a NOT node changes the boolean function (not not a ≠ not a)", loc)
-    for key in canonical:
-        if key not in seen:
-            r.violation("C02.R3", fp.qual, " and ".join(key), f"branch extracting {canonical[key]} not found", fp.loc)
-    rets = [x for x in walk_no_nested(fp.node) if isinstance(x, ast.Return)]
-    if len(rets) == 1 and unparse(rets[0].value).replace(" ", "") == "[cls(args)]":
-        r.ok("C02.R3", fp.qual, "return [cls(args)]", f"{m.relpath}:{rets[0].lineno}")
+        okv = isinstance(got, list) and len(got) == 1 and type(got[0]) is K and len(list(got[0].args)) == len(want) and all(a is b or a == b for a, b in zip(list(got[0].args), want))
+        if not okv:
+            shown = [type(x).__name__ + repr(list(getattr(x, "args", []))) for x in got] if isinstance(got, list) else repr(got)
+            wrong.append(f"{what}: {shown} instead of one {K.__name__} node with arguments {want}")
+    if wrong:
+        r.violation("C02.R3", fp.qual, f"from_parsed: {wrong[0]}", f"{len(wrong)} of {len(cases)} interpreted cases deviate: the parse action must build exactly one node of its own class; unary operator: last token; n-ary: every second token, skipping the operator tokens; merging/flattening the argument of a NOT node changes the boolean function (not not a ≠ not a)", fp.loc)
     else:
-        for rt in rets:
-            if unparse(rt.value).replace(" ", "") != "[cls(args)]":
-                r.violation("C02.R3", fp.qual, stmt_head(rt), "parse action must build exactly one node of its own class from the extracted arguments", f"{m.relpath}:{rt.lineno}")
+        for what, K, toks, want in cases:
+            r.ok("C02.R3", fp.qual, f"{what} → [{K.__name__}({want})] (interpreted)", fp.loc)
     # overrides of from_parsed in subclasses
     for sub in prog.subclasses(MOD + ".ConditionItem", strict=True):
         if "from_parsed" in prog.classes[sub].methods:
@@ -355,7 +342,7 @@ def _r4_selection_table(ctx, fi: FuncInfo) -> None:
     names that (1) match the pattern as a whole with '*' as the only wildcard ('them' = every name), (2) start with '_' only
     if the pattern does, (3) carry the filter prefix '_filt_' only if the pattern carries it (filter-internal patterns)."""
     import re as _re
-    from ..tabulate import Interp, Raised
+    from ..tabulate import Proxy, call_method, Raised
     r, prog = ctx.r, ctx.prog
 
     class _CI:
@@ -366,11 +353,10 @@ def _r4_selection_table(ctx, fi: FuncInfo) -> None:
     dets.detections = {n: object() for n in SEL_NAMES}
     bad = []
     for pat in SEL_PATTERNS:
-        me = type("S", (), {})()
-        me.pattern = pat
-        it = Interp({"self": me, "detections": dets, "re": _re, "ConditionIdentifier": _CI}, max_steps=5000)
+        env = {"re": _re, "ConditionIdentifier": _CI}
+        me = Proxy(prog, fi.cls.qual, env, {"pattern": pat}, interp_kwargs={"max_steps": 5000})
         try:
-            out = it.call(fi.node.body)
+            out = call_method(prog, fi.cls.qual, fi.name, me, env, dets, interp_kwargs={"max_steps": 5000})
         except Raised as ex:
             bad.append((pat, f"raises {ex}"))
             continue
@@ -390,17 +376,14 @@ def _r4_selection_table(ctx, fi: FuncInfo) -> None:
 def r4_selector(ctx, m, pat_alpha: str) -> None:
     r, prog = ctx.r, ctx.prog
     r.rule("C02.R4", "selector resolution: pattern alphabet has no regex metacharacter besides '*', the pattern is compiled from replace('*', '.*') and applied with fullmatch over all detection names, 'them' matches all, '_…' names only for '_…' patterns and '_filt_…' names only for '_filt_…' patterns (selection table interpreted over sample names), quantifiers map 1|any→OR and all→AND")
-    loc = f"{m.relpath}:{_module_assign(m, 'identifier_pattern').lineno}"
+    loc = f"{m.relpath}:{_line_of(m, 'identifier_pattern')}"
     meta = (set(pat_alpha) - {"*"}) & REGEX_META
     if meta:
         r.violation("C02.R4", MOD + ".identifier_pattern", f"alphabet {''.join(sorted(set(pat_alpha)))!r}", f"pattern alphabet contains regex metacharacters {sorted(meta)} that reach re.compile unescaped", loc)
     else:
         r.ok("C02.R4", MOD + ".identifier_pattern", "pattern alphabet minus '*' contains no regex metacharacter", loc)
     # every detection name must be reachable by a pattern: pattern alphabet ⊇ identifier alphabet
-    try:
-        ident_alpha = const_eval(prog, m, _resolve_alias(m, _module_assign(m, "identifier")).args[0])
-    except Exception:
-        ident_alpha = None
+    ident_alpha = grammar_alphabets(ctx, m)[0]
     if ident_alpha is not None:
         missing = set(ident_alpha) - set(pat_alpha)
         if missing:
